@@ -259,8 +259,9 @@ var internalOnly = map[string]bool{"mset": true, "hmclear": true, "lmclear": tru
 
 // gen draws template instances and values from the tape.
 type gen struct {
-	t    *core.Tape
-	nval int
+	t           *core.Tape
+	nval        int
+	nHuge, nBig int
 }
 
 func (g *gen) pick(xs []string) string { return xs[g.t.Choose(len(xs))] }
